@@ -62,7 +62,7 @@ ASSUMPTIONS = [
 ]
 REQUIRED = ["comparisons", "purefock_tf_comparisons", "purefock_jax_comparisons", "compiled_mode_comparisons",
             "gaussian_comparisons", "passive_comparisons", "fermionic_comparisons", "phaseshifter_comparisons",
-            "statevector_comparisons", "polar_probes"]
+            "statevector_comparisons", "polar_probes", "jax_perm_calls"]
 WATCHDOG = {"quick": 900, "thorough": 3000}
 
 EPS = float(np.finfo(np.float64).eps)
@@ -115,6 +115,22 @@ def backend(name):
         jax.config.update("jax_enable_x64", True)
         _BACKENDS[name] = jax
     return _BACKENDS[name]
+
+
+def count_perm_calls(ctx):
+    """Call counter on piquasso.jax_extensions.permanent.perm (JaxConnector.permanent imports it per call)."""
+    import piquasso.jax_extensions.permanent as pm
+
+    if getattr(pm.perm, "_vf_counted", False):
+        return
+    orig = pm.perm
+
+    def perm(*a, **k):
+        ctx.c["jax_perm_calls"] += 1
+        return orig(*a, **k)
+
+    perm._vf_counted = True
+    pm.perm = perm
 
 
 def make_connector(pq, mode, fix_polar=False):
@@ -437,6 +453,35 @@ def phaseshifter_reference(pq, doc, angles):
     return val, max(0.0, 1.0 - float(p.sum()))
 
 
+def concrete_formula(pq, doc, angles):
+    """The documented closed form Tr[rho R(phi)] = 2^d exp(-mu+ (Sigma + i D)^-1 mu) / (prod(1 - e^{i phi}) sqrt(det(Sigma + i D)))
+    evaluated by the harness from the NumPy state's complex displacement / covariance, with D built by repeat(2)
+    (as the concrete branch does) and by tile ([a.., a+..] ordering of Sigma). Principal square root in both."""
+    from vf.gen import programs as G
+
+    state = build_sim(pq, doc, None).execute(G.build_program(pq, doc["ins"]), shots=1).state
+    mu = np.asarray(state.complex_displacement)
+    cov = np.asarray(state.complex_covariance)
+    angles = np.asarray(angles, dtype=float)
+    nz = ~np.isclose(np.sin(angles / 2), 0.0)
+    if not nz.any():
+        return 1.0 + 0.0j, 1.0 + 0.0j
+    d = doc["d"]
+    keep = np.concatenate([np.where(nz)[0], np.where(nz)[0] + d])
+    mu = mu[keep]
+    cov = cov[np.ix_(keep, keep)]
+    a = angles[nz]
+    out = []
+    for order in ("repeat", "tile"):
+        cot = 1 / np.tan(a / 2)
+        D = np.diag(cot.repeat(2) if order == "repeat" else np.tile(cot, 2))
+        Mx = (cov + 1j * D) / 2
+        with np.errstate(all="ignore"):
+            val = np.exp(-(np.conj(mu) @ np.linalg.inv(Mx) @ mu) / 2) / (np.prod(1 - np.exp(1j * a)) * np.sqrt(np.linalg.det(Mx)))
+        out.append(complex(val))
+    return out[0], out[1]
+
+
 # ------------------------------------------------------------------------------ the comparison
 def compare_case(ctx, pq, case):
     """case = {"family", "doc", "modes": [...], "extra": {...}}"""
@@ -586,21 +631,42 @@ def _classify(ctx, pq, case, results, deviating, ambiguous, complex_gates, size,
     pse_modes = [m for m, devs in deviating.items() if any(n == "phaseshifter_expectation" for n, *_ in devs)]
     if pse_modes:
         angles = np.asarray(extra["angles"], dtype=float)
-        active = ~np.isclose(np.sin(angles / 2), 0.0)
         refval, tail = phaseshifter_reference(pq, doc, angles)
         ctx.c["phaseshifter_reference_checks"] += 1
-        tol_ref = tail * 2 + tolerance(size, n_ins) + 1e-9
+        tol_ref = 2 * tail + tolerance(size, n_ins) + 1e-9
         v_np = complex(results["numpy"]["obs"]["phaseshifter_expectation"])
+        v_rep, v_tile = concrete_formula(pq, doc, angles)
+        head = "GaussianState.get_phaseshifter_expectation_value(%s), d=%d: concrete NumPy path %s; photon statistics (cutoff tail %.1e) %s; " % (
+            [float(a) for a in angles], doc["d"], v_np, tail, refval)
         np_wrong = abs(v_np - refval) > tol_ref
+        if np_wrong:
+            # which defect(s) of the concrete path explain the NumPy value?
+            mechs = []
+            if v_tile is not None and abs(v_rep - v_np) <= tol_ref:
+                if abs(v_tile - refval) <= tol_ref:
+                    mechs = ["phaseshifter-expectation-concrete-branch-order"]
+                elif abs(-v_tile - refval) <= tol_ref:
+                    mechs = ["phaseshifter-expectation-concrete-sqrt-branch"]
+                    if abs(v_tile - v_rep) > tol_ref:
+                        mechs.append("phaseshifter-expectation-concrete-branch-order")
+            if not mechs:
+                mechs = ["phaseshifter-expectation-concrete-differs-from-photon-statistics"]
+            for mech in mechs:
+                ctx.viol(mech, head + "the documented formula re-evaluated by the harness with D = diag(cot(phi/2)).repeat(2) gives %s, with "
+                               "the [a.., a+..] ordering (tile) %s; modes that disagree with NumPy: %s; program %s" % (
+                                   v_rep, v_tile, {m: complex(results[m]["obs"]["phaseshifter_expectation"]) for m in pse_modes}, prog),
+                         dict(case, failing_mode="numpy"))
         for m in pse_modes:
             v = complex(results[m]["obs"]["phaseshifter_expectation"])
-            ok_ref = abs(v - refval) <= tol_ref
-            if (m == "jax-jit" and ok_ref and np_wrong and int(active.sum()) >= 2 and len(set(np.round(angles[active], 12))) > 1):
-                mech = "phaseshifter-expectation-concrete-branch-order"
-            else:
-                mech = "phaseshifter-expectation-differs:%s" % m
-            ctx.viol(mech, "GaussianState.get_phaseshifter_expectation_value(%s), d=%d: concrete NumPy path %s, %s %s, photon statistics (cutoff tail %.1e) %s; "
-                           "program %s" % (list(angles), doc["d"], v_np, m, v, tail, refval, prog), dict(case, failing_mode=m))
+            if abs(v - refval) > tol_ref:
+                if np_wrong and m in ("jax",) and abs(v - v_np) <= tol_ref:
+                    continue  # same concrete code path, already reported
+                ctx.viol("phaseshifter-expectation-differs:%s" % m, head + "%s gives %s; program %s" % (m, v, prog), dict(case, failing_mode=m))
+            elif not np_wrong:
+                # both within the reference tolerance of the photon statistics but further apart than rounding: the
+                # reference cannot tell which one is off
+                ctx.viol("phaseshifter-expectation-differs:%s" % m, head + "%s gives %s (both within the photon-statistics tolerance %.1e, "
+                         "apart by more than rounding); program %s" % (m, v, tol_ref, prog), dict(case, failing_mode=m))
     # ---- everything else
     polar_u = None
     for m, devs in deviating.items():
@@ -763,7 +829,8 @@ def gen_passive(rng, d):
         occ[int(rng.integers(0, d))] = n
     ins = [{"t": "NumberState", "m": None, "p": {"occupation_numbers": occ}}]
     pool = list(G.PASSIVE_GATES) + ["Interferometer", "Kerr", "CrossKerr"]
-    for _ in range(int(rng.integers(1, 6))):
+    want = int(rng.integers(1, 6))
+    while len(ins) - 1 < want:
         g = G.gate(rng, str(rng.choice(pool)), d)
         if g is not None:
             ins.append(g)
@@ -847,6 +914,7 @@ def run_shard(spec):
         backend("tf")
     if fam != "passive-numpy":
         backend("jax")
+    count_perm_calls(ctx)
     t_import = time.time() - t0
     ctx.obs.add("backend import took %.0f s in a %s shard" % (t_import, fam)) if t_import > 60 else None
     t0 = time.time()
@@ -890,7 +958,7 @@ def gen_case(rng, fam, i, shapes, quick):
             extra["skip_probs"] = True
     elif fam == "passive":
         doc, extra = gen_passive(rng, int(rng.integers(1, 4)))
-        modes = ["jax"]
+        modes = ["jax"] + (["jax-jit"] if i % 5 == 1 else [])
     elif fam == "fermionic":
         sim = "ffock" if i % 2 == 0 else "fgaussian"
         doc, extra = gen_fermionic(rng, sim, int(rng.integers(2, 4)))
